@@ -171,6 +171,11 @@ class MA(MCallerHttp):
         return self.call_b(**kw)
 
 
+    @method_http(None, ['ca', 'cq'])
+    def call_multi(self, **kw):
+        """a wrapper that works with either of two components: each caller class knows one of them"""
+        return self.get_conn().get("/m/x", **kw)
+
     @method_http(None, 'ca')
     def call_lazy(self, **kw):
         """a wrapper written as a generator: the request is sent when the caller takes the result"""
@@ -199,6 +204,26 @@ class MB(MCallerHttp):
 class M(MA, MB):
     """a method caller composed of two mixins"""
     _HTTP_PREFIX_MAP = {'ca': '/cmpA', 'cb': '', 'cz': '/cmpZ'}
+
+
+class EqPrefix(H.RequestAdapterAddPathPrefix):
+    """a path-prefix adapter of the application with value semantics (as a dataclass has): two adapters adding
+    the same prefix compare equal - they are still two adapters"""
+
+    def __init__(self, prefix):
+        super().__init__(prefix)
+        self.vf_prefix = prefix
+
+    def __eq__(self, other):
+        return isinstance(other, EqPrefix) and other.vf_prefix == self.vf_prefix
+
+    def __hash__(self):
+        return hash(self.vf_prefix)
+
+
+class M2(MA, MB):
+    """another caller class built from the same mixins: it reaches the other component of call_multi"""
+    _HTTP_PREFIX_MAP = {'cq': '/cmpQ', 'cb': '', 'cz': '/z'}
 
 
 def build(rng, log):
@@ -238,7 +263,7 @@ def build(rng, log):
             for _ in range(rng.randint(0, 2)):
                 if rng.random() < 0.6:
                     p = rng.choice(["/x", "/y/", "z", "/v1"])
-                    ads.append(H.RequestAdapterAddPathPrefix(p))
+                    ads.append(H.RequestAdapterAddPathPrefix(p) if rng.random() < 0.6 else EqPrefix(p))
                     own.append(('prefix', p))
                 elif rng.random() < 0.15:
                     what = rng.choice(['apikey', 'envelope', 'method', 'address'])
@@ -255,6 +280,13 @@ def build(rng, log):
             arg = ads if len(ads) != 1 or rng.random() < 0.5 else ads[0]
             conn = H.HttpConn(conn, adapters=arg)
             layers.append(own)
+            if rng.random() < 0.25:
+                # one more adapter is attached to the finished connection (it is asked last, so it acts like an
+                # innermost layer); it may be EQUAL to an adapter that is in the chain already
+                have = [a[1] for layer in layers for a in layer if a[0] == 'prefix' and not a[1].startswith("/key")]
+                p = rng.choice(have) if have and rng.random() < 0.7 else "/late"
+                conn.add_adapter(EqPrefix(p))
+                layers.insert(0, [('prefix', p)])
     return conn, address, layers
 
 
@@ -519,6 +551,22 @@ def _run_history(ctx, rng, case):
             ctx.count("clone_with_list")
         cl_layers = ml + [[] if how == 'none' else [('prefix', "/c1")] if how == 'one'
                           else [('prefix', "/c1"), ('prefix', "/c2")]]
+        # two caller classes made of the same mixins are used in this process, in either order
+        m2 = M2(conn if isinstance(conn, H.HttpConn) else H.HttpConn(conn))
+        pairs = [(m, '/cmpA', "first class"), (m2, '/cmpQ', "second class")]
+        if rng.random() < 0.5:
+            pairs.reverse()
+        for mc, prefix, tag in pairs + pairs[:1]:
+            del log[:]
+            steps.append([tag, "call_multi"])
+            try:
+                mc.call_multi()
+            except Exception as err:
+                fail("method-caller-raises", {"step": tag, "method": "call_multi", "type": type(err).__name__,
+                                              "msg": str(err)[:150]})
+            check_req(op.reqs[-1], expected(address, ml + [[('prefix', prefix)]], "/m/x", "GET", None, None, None),
+                      tag + " call_multi")
+            ctx.count("wrappers_with_two_components_called")
         for mc, lay, tag in [(cl, cl_layers, "clone " + how), (m, ml, "caller after clone"),
                              (cl, cl_layers, "clone again")]:
             for name, suffix, path, method in (("call_a", [[('prefix', '/cmpA')]], "/m/a", "POST"),
